@@ -95,6 +95,12 @@ impl NodeController {
             .into_iter()
             .map(|(topic, seg)| wal_key(&topic, seg))
             .collect();
+        #[cfg(walrus_verif)]
+        {
+            let mut v: Vec<&str> = expected.iter().map(|s| s.as_str()).collect();
+            v.sort();
+            walrus_rust::wal::verif::api("lease_snapshot", &v.join("\n"), v.len());
+        }
         self.sync_peer_addrs_from_metadata().await;
         tracing::debug!("update_leases node={} leases={:?}", self.node_id, expected);
         self.bucket.update_leases(&expected).await;
